@@ -98,12 +98,34 @@ func (e *Exec) termsEq(a, b []*Term) *Term {
 func registerCrypto(p *Program) {
 	p.reg("crypto/rand.Read", func(e *Exec, g *G, a []Value) Value {
 		s := a[0].(SliceV)
+		e.randCalls++
+		if e.randCalls-1 == e.randFaultAt {
+			return TupleV{e.tc.Const(64, 0), e.errValue("injected failure of the random source")}
+		}
 		if s.IsNil() {
 			return TupleV{e.tc.Const(64, 0), IfaceV{}}
 		}
 		e.accessArr(s.A, true)
 		e.arrHavoc(s.A, s.Off, s.Len, "rand")
 		return TupleV{s.Len, IfaceV{}}
+	})
+	p.reg("verif:verifRandFaultAt", func(e *Exec, g *G, a []Value) Value {
+		e.randFaultAt = int(a[0].(*Term).SVal())
+		e.randCalls = 0
+		return nil
+	})
+	// structural freshness: corresponding bytes of a and b are different terms, not both constant
+	p.reg("verif:verifFreshBytes", func(e *Exec, g *G, a []Value) Value {
+		x, y := e.sliceTerms(a[0].(SliceV)), e.sliceTerms(a[1].(SliceV))
+		if len(x) != len(y) {
+			return e.tc.Bool(true)
+		}
+		for i := range x {
+			if x[i] == y[i] || (x[i].IsConst() && y[i].IsConst()) {
+				return e.tc.Bool(false)
+			}
+		}
+		return e.tc.Bool(true)
 	})
 	p.reg(ssPkg+".simpleEVPBytesToKey", func(e *Exec, g *G, a []Value) Value {
 		data, ok := concBytes(e.sliceTerms(a[0].(SliceV)))
